@@ -850,9 +850,23 @@ pub fn sql_session_corrupt(
             })
         };
         let mut out = vec![];
-        let db = rt.block_on(Database::verif_new_on_disk_manual(options()));
+        let mut db = rt.block_on(Database::verif_new_on_disk_manual(options()));
         for sql in &sqls[..corrupt_before] {
-            out.push(run(&db, sql));
+            if sql == "@compact" {
+                // one compaction pass that may merge all RowSets: the database is reopened with a
+                // large target RowSet size for it (what is written is what gets damaged later)
+                drop(db);
+                let mut big = options();
+                big.target_rowset_size = 1 << 20;
+                db = rt.block_on(Database::verif_new_on_disk_manual(big));
+                out.push(
+                    rt.block_on(db.verif_compact_once())
+                        .map(|_| vec![])
+                        .map_err(|e| e.to_string().lines().next().unwrap_or("").to_string()),
+                );
+            } else {
+                out.push(run(&db, sql));
+            }
         }
         drop(db);
         let mut files = vec![];
